@@ -866,7 +866,16 @@ def stream_render(ctx: Ctx) -> Stream:
 # search: the fuzz oracle on the real pipeline
 
 F3_WITNESS = 'a = = 1\n'
-DEEP_NESTING = ['x = ' + '(' * 400 + '1' + ')' * 400 + '\n', 'x = ' + '[' * 300 + ']' * 300 + '\n', 'x = ' + '-' * 600 + '1\n', 'x = 1' + ' + 1' * 1500 + '\n']
+# (mode or 'both', text): moderately deep inputs that must simply work, and inputs deeper than CPython's recursion limit allows the
+# recursive tree walks to follow (RecursionError is an Exception like any other: the property wants an Errors.Error)
+DEEP_NESTING: list[tuple[str, str]] = [
+	('both', 'x = ' + '(' * 400 + '1' + ')' * 400 + '\n'),
+	('both', 'x = ' + '[' * 300 + ']' * 300 + '\n'),
+	('both', 'x = ' + '-' * 600 + '1\n'),
+	('both', 'x = 1' + ' + 1' * 1500 + '\n'),
+	('both', 'x = ' + '(' * 2000 + '1' + ')' * 2000 + '\n'),
+	('on-disk', ''.join('\t' * i + 'if True:\n' for i in range(300)) + '\t' * 300 + 'pass\n'),
+]
 
 
 def _as_text(data: str | bytes) -> str:
@@ -959,19 +968,20 @@ def fuzz_inputs(ctx: Ctx) -> list[tuple[str, str, str | bytes]]:
 		# Procedure — the same text can be an Errors.* in memory and a raw exception on disk
 		for m in both:
 			out.append(('ill-typed', m, s))
-	for i, s in enumerate(DEEP_NESTING):
-		out.append(('deep-nesting', both[i % 2], s))
+	for md, s in DEEP_NESTING:
+		for m in (both if md == 'both' else (md,)):
+			out.append(('deep-nesting', m, s))
 	if ctx.thorough:
 		for name, s in gen.large_sources():
 			out.append(('seed-large', 'in-memory', s))
-	n = ctx.scale(2600, 40000)
+	n = ctx.scale(2200, 15000)
 	big = [s for _, s in gen.large_sources()] if ctx.thorough else []
-	chunk_share = 0.10 if ctx.thorough else 0.03  # a chunk costs ~0.2 s per run, a small seed ~0.02 s
+	chunk_share = 0.06 if ctx.thorough else 0.03  # a chunk costs ~0.2 s per run, a small seed ~0.02 s
 	for i in range(n):
 		m = both[i % 2]
 		r = rng.random()
 		pick = rng.random()
-		base = rng.choice(seeds) if pick >= chunk_share else (rng.choice(chunks) if pick >= 0.002 or not big else rng.choice(big))
+		base = rng.choice(seeds) if pick >= chunk_share else (rng.choice(chunks) if pick >= 0.001 or not big else rng.choice(big))
 		if r < 0.18:
 			out.append(('byte-mutation', m, gen.mutate_bytes(rng, base.encode('utf-8'))))
 		elif r < 0.50:
@@ -992,7 +1002,7 @@ def fuzz_inputs(ctx: Ctx) -> list[tuple[str, str, str | bytes]]:
 
 
 def search_fuzz(ctx: Ctx) -> SearchResult:
-	res = SearchResult('fuzz: Modules.load -> Py2Cpp.transpile in {ok} ∪ Errors.Error, ErrorRender total, 10 s cap (in memory + on disk)')
+	res = SearchResult('fuzz: Modules.load -> Py2Cpp.transpile in {ok} ∪ Errors.Error, ErrorRender total, 10 s CPU cap (in memory + on disk)')
 	base = ctx.tmpdir()
 	pipes = {'in-memory': pl.Pipeline('in-memory', base), 'on-disk': pl.Pipeline('on-disk', base)}
 	inputs = fuzz_inputs(ctx)
@@ -1028,7 +1038,8 @@ def search_fuzz(ctx: Ctx) -> SearchResult:
 	# confirm each key on a fresh App (history-free), minimise, report
 	for k in sorted(first):
 		kind, mode, data, o = first[k]
-		small = minimise(pipes[mode], data, k)
+		# corpus witnesses are already minimal, deep-nesting inputs are what they are (and each run of them costs seconds)
+		small = data if kind in ('corpus', 'witness-F3', 'deep-nesting') else minimise(pipes[mode], data, k)
 		conf = pl.fresh_outcome(mode, base, small)
 		if k not in conf.keys():
 			conf = pl.fresh_outcome(mode, base, data)
